@@ -18,6 +18,7 @@ typedef struct {
 	ZSTD_CStream *cstrm;
 	ZSTD_DStream *dstrm;
 	bool compress;
+	bool pending;
 } xfrm_zstd_t;
 
 static const ZSTD_EndDirective zstd_action[] = {
@@ -39,7 +40,8 @@ static int process_data(xfrm_stream_t *stream, const void *in,
 	if (flush_mode < 0 || flush_mode >= XFRM_STREAM_FLUSH_COUNT)
 		flush_mode = XFRM_STREAM_FLUSH_NONE;
 
-	while (in_size > 0 && out_size > 0) {
+	while ((in_size > 0 || (flush_mode != XFRM_STREAM_FLUSH_NONE &&
+				zstd->pending)) && out_size > 0) {
 		memset(&in_desc, 0, sizeof(in_desc));
 		in_desc.src = in;
 		in_desc.size = in_size;
@@ -67,10 +69,32 @@ static int process_data(xfrm_stream_t *stream, const void *in,
 		out = (char *)out + out_desc.pos;
 		out_size -= out_desc.pos;
 		*out_written += out_desc.pos;
+
+		/* A return value of 0 means all internal buffers are flushed
+		   and the frame is complete (when compressing, only if we
+		   actually asked for that). */
+		if (zstd->compress) {
+			zstd->pending = !(ret == 0 && flush_mode !=
+					  XFRM_STREAM_FLUSH_NONE);
+		} else {
+			zstd->pending = (ret != 0);
+		}
+
+		if (in_desc.pos == 0 && out_desc.pos == 0) {
+			/* no more input will come, there is room for output,
+			   but we are still in the middle of a frame */
+			if (zstd->pending && !zstd->compress && in_size == 0 &&
+			    flush_mode == XFRM_STREAM_FLUSH_FULL) {
+				return XFRM_STREAM_ERROR;
+			}
+
+			if (zstd->pending || in_size > 0)
+				return XFRM_STREAM_BUFFER_FULL;
+		}
 	}
 
 	if (flush_mode != XFRM_STREAM_FLUSH_NONE) {
-		if (in_size == 0)
+		if (in_size == 0 && !zstd->pending)
 			return XFRM_STREAM_END;
 	}
 
